@@ -249,12 +249,15 @@ func c03Scenario(c *fw.Ctx, s int) {
 			return
 		}
 		// 2. correct replies due this round
+		raced := []*c03Msg{}
 		for _, m := range msgs {
 			if !alive[m.sess] || m.stage == 2 {
 				continue
 			}
 			cc := subs[m.sess]
 			switch {
+			case m.stage == 0 && m.ackRound == r && m.qos == 1 && s%3 == 0:
+				raced = append(raced, m) // acknowledged below, while a sweep runs
 			case m.stage == 0 && m.ackRound == r && m.qos == 1:
 				cc.Send(kit.EncPubAck(m.id))
 				m.stage = 2
@@ -279,6 +282,45 @@ func c03Scenario(c *fw.Ctx, s int) {
 		if !pingAll() {
 			return
 		}
+		if len(raced) > 0 {
+			// the PUBACKs of this round arrive while an expiry sweep is under way. Either the acknowledgement
+			// wins (identifier released, exchange over) or the sweep does (the retransmitted exchange is still
+			// open, identifier still allocated; the client acknowledges again next round) - never both
+			var rw sync.WaitGroup
+			rw.Add(1)
+			far = far.Add(time.Hour)
+			sweepAt := far
+			stopSweeps := make(chan struct{})
+			go func() {
+				defer rw.Done()
+				for {
+					n.Ack.Expire(sweepAt)
+					select {
+					case <-stopSweeps:
+						return
+					default:
+					}
+				}
+			}()
+			for _, m := range raced {
+				subs[m.sess].Send(kit.EncPubAck(m.id))
+			}
+			close(stopSweeps)
+			rw.Wait()
+			if !pingAll() {
+				return
+			}
+			for _, m := range raced {
+				if poolHas(n, m.id) {
+					m.stage = 2
+					c.Observe("racing_acks_won", 1)
+				} else {
+					m.ackRound = r + 1
+					c.Observe("racing_acks_lost_to_sweep", 1)
+				}
+			}
+			script = append(script, fmt.Sprintf("round %d: %d PUBACKs sent while a sweep runs", r, len(raced)))
+		}
 		for _, m := range msgs {
 			if m.stage == 2 && alive[m.sess] && m.doneCopies[1] == 0 {
 				cc := subs[m.sess]
@@ -295,11 +337,37 @@ func c03Scenario(c *fw.Ctx, s int) {
 		// 3. sessions that end this round
 		for i := range subs {
 			if alive[i] && dieAt[i] == r {
-				subs[i].Close()
 				alive[i] = false
-				if !sessionGone(n, fmt.Sprintf("c03-%d-sub%d", s, i), 10*time.Second) {
-					c.Violation("session-not-removed", fmt.Sprintf("scenario %d: session %d still registered 10 s after its connection closed", s, i), wit(nil))
-					return
+				if (s+i)%2 == 0 {
+					subs[i].Close()
+					if !sessionGone(n, fmt.Sprintf("c03-%d-sub%d", s, i), 10*time.Second) {
+						c.Violation("session-not-removed", fmt.Sprintf("scenario %d: session %d still registered 10 s after its connection closed", s, i), wit(nil))
+						return
+					}
+				} else {
+					// the session ends by displacement: the client connects again (clean session, no subscriptions),
+					// the old connection's next keep-alive exchange ends it
+					clientID := fmt.Sprintf("c03-%d-sub%d", s, i)
+					oldID := sessionIDOf(n, clientID)
+					nc, err := n.MustConnect(kit.ConnectOpts{ClientID: clientID, KeepAlive: 600, Clean: true})
+					if err != nil {
+						c.Inconclusive("takeover connect: " + err.Error())
+						return
+					}
+					defer nc.Close()
+					subs[i].Send(kit.EncPingReq())
+					subs[i].WaitClosed(10 * time.Second)
+					if left := pollGone(10*time.Second, func() []string {
+						if n.Local.Get(oldID) != nil {
+							return []string{"still registered"}
+						}
+						return nil
+					}); len(left) > 0 {
+						c.Violation("session-not-removed", fmt.Sprintf("scenario %d: session %d (displaced by a newer connection of its client, then sent PINGREQ) is still registered 10 s later", s, i), wit(nil))
+						return
+					}
+					script = append(script, fmt.Sprintf("session %d ends by displacement", i))
+					c.Observe("sessions_ended_by_displacement", 1)
 				}
 				c.Observe("sessions_ended", 1)
 			}
@@ -446,6 +514,126 @@ func c03RealTime(c *fw.Ctx, idx int) {
 	c.Case(fmt.Sprintf("realtime|%d", idx), true)
 }
 
+// c03AckStorm: a subscriber acknowledges 16 QoS 1 deliveries while expiry sweeps run back to back.
+// For every delivery either the acknowledgement wins (identifier back in the pool, nothing is ever
+// sent again) or a sweep does (identifier still allocated; acknowledged again afterwards).
+func c03AckStorm(c *fw.Ctx, idx int) {
+	fw.LogCase("C03 ack storm %d", idx)
+	cl := kit.NewCluster(kit.WorkDir("c03s"))
+	defer cl.Close()
+	n, err := cl.AddNode(kit.NodeOpts{ID: 1})
+	if err != nil {
+		c.Inconclusive("cannot start node: " + err.Error())
+		return
+	}
+	sub, err := n.MustConnect(kit.ConnectOpts{ClientID: "storm-sub", KeepAlive: 600, Clean: true})
+	if err != nil {
+		c.Inconclusive("connect: " + err.Error())
+		return
+	}
+	defer sub.Close()
+	sub.SetAutoAck(false)
+	if err := sub.Sub1("c03/storm", 1); err != nil {
+		c.Inconclusive("subscribe: " + err.Error())
+		return
+	}
+	pub, err := n.MustConnect(kit.ConnectOpts{ClientID: "storm-pub", KeepAlive: 600, Clean: true})
+	if err != nil {
+		c.Inconclusive("connect: " + err.Error())
+		return
+	}
+	defer pub.Close()
+	far := time.Now()
+	for r := 0; r < c.Pick(16, 80); r++ {
+		const k = 16
+		ids := map[string]int{}
+		for i := 0; i < k; i++ {
+			tag := fmt.Sprintf("storm-%d-%d-%d", idx, r, i)
+			if acked, _ := pub.Publish("c03/storm", []byte(tag), 1, false, kit.DefaultWait); !acked {
+				c.Inconclusive("publish not acknowledged")
+				return
+			}
+			ev, _, err := sub.WaitFor(0, 30*time.Second, func(e kit.Event) bool { return e.Pkt.Type == kit.PUBLISH && string(e.Pkt.Payload) == tag })
+			if err != nil {
+				c.Violation("first-copy-missing", fmt.Sprintf("ack storm %d: %s was never written to its subscriber", idx, tag), nil)
+				return
+			}
+			ids[tag] = ev.Pkt.ID
+		}
+		far = far.Add(time.Hour)
+		sweepAt := far
+		stop := make(chan struct{})
+		var sw sync.WaitGroup
+		sw.Add(1)
+		go func() {
+			defer sw.Done()
+			for {
+				n.Ack.Expire(sweepAt)
+				select {
+				case <-stop:
+					return
+				default:
+				}
+			}
+		}()
+		for _, id := range ids {
+			sub.Send(kit.EncPubAck(id))
+		}
+		close(stop)
+		sw.Wait()
+		if ok, _ := sub.Ping(kit.DefaultWait); !ok {
+			c.Inconclusive("no PINGRESP in the ack storm")
+			return
+		}
+		completed := map[string]int{} // tag -> copies seen when it completed
+		for pass := 0; pass < 4 && len(completed) < k; pass++ {
+			for tag, id := range ids {
+				if _, done := completed[tag]; done {
+					continue
+				}
+				if poolHas(n, id) {
+					np, _ := c03Count(sub, kit.PUBLISH, tag, id)
+					completed[tag] = np
+					if pass == 0 {
+						c.Observe("racing_acks_won", 1)
+					}
+				} else {
+					if pass == 0 {
+						c.Observe("racing_acks_lost_to_sweep", 1)
+					}
+					sub.Send(kit.EncPubAck(id)) // the retransmitted exchange is still open: acknowledge again (no sweep running)
+				}
+			}
+			if ok, _ := sub.Ping(kit.DefaultWait); !ok {
+				c.Inconclusive("no PINGRESP in the ack storm")
+				return
+			}
+		}
+		if len(completed) < k {
+			c.Violation("identifier-not-freed", fmt.Sprintf("ack storm %d round %d: %d of %d deliveries were acknowledged repeatedly with no sweep running, yet their identifiers are not back in the pool", idx, r, k-len(completed), k), nil)
+			return
+		}
+		for s := 0; s < 2; s++ {
+			far = far.Add(time.Hour)
+			n.Ack.Expire(far)
+		}
+		if ok, _ := sub.Ping(kit.DefaultWait); !ok {
+			c.Inconclusive("no PINGRESP in the ack storm")
+			return
+		}
+		for tag, id := range ids {
+			np, _ := c03Count(sub, kit.PUBLISH, tag, id)
+			c.Observe("completions_checked", 1)
+			if np > completed[tag] {
+				c.Violation("sent-after-completion", fmt.Sprintf("ack storm %d round %d: %s (id %d) was acknowledged while sweeps were running and its identifier went back to the pool, yet a later sweep wrote it again (%d -> %d copies): the acknowledgement and the expiry both took effect", idx, r, tag, id, completed[tag], np),
+					map[string]interface{}{"storm": idx, "round": r, "id": id})
+				return
+			}
+		}
+	}
+	c.Case(fmt.Sprintf("ack-storm|%d", idx), true)
+}
+
 func runC03(c *fw.Ctx) {
 	c.Rule = "seeded scenarios on a broker node: 1-3 subscriber sessions (subscription QoS 1 or 2, automatic acknowledgement off) with 1-4 in-flight deliveries each; per delivery a response script (acknowledge in round 0-3 or never; QoS 2: PUBCOMP 0-2 rounds after PUBREC; optionally a wrong-type or unknown-identifier reply in some round), per session an optional disconnect round; each of 5 rounds = wrong replies, due replies, session ends, then a FORCED expiry sweep (ack.Queue.Expire with a time past every armed deadline, called by the harness) and a PINGREQ/PINGRESP barrier per session. Trace specification per delivery: >= 1+k PUBLISH copies after k sweeps unacknowledged, all with the first copy's identifier; after PUBREC >= 1 PUBREL per sweep and no further PUBLISH; after completion nothing more and the identifier is in the pool's free list (hook H1); after a session ends its identifiers are freed by the next sweep. Plus real-time scenarios without forced sweeps: silent subscribers are watched for 11 s and must see >=3 copies produced by the broker's own ticker, with deliveries started at different sub-second phases. distinct = script; non-trivial = every scenario (>=1 unacknowledged sweep)"
 	c.Assume("lower bounds only: the writer's own 1 s ticker may add copies")
@@ -465,6 +653,10 @@ func runC03(c *fw.Ctx) {
 	for i := 0; i < c.Pick(3, 12); i++ {
 		wg.Add(1)
 		go func(i int) { defer wg.Done(); c03RealTime(c, i) }(i)
+	}
+	for i := 0; i < c.Pick(6, 24); i++ {
+		wg.Add(1)
+		go func(i int) { defer wg.Done(); c03AckStorm(c, i) }(i)
 	}
 	wg.Wait()
 	c.Floor("retransmissions_seen", 20)
